@@ -77,6 +77,54 @@ pub fn c13_thread_exit(rep: &mut Report) {
     }
 }
 
+/// A writer that is itself a client of the library (it frames or checksums what it receives).
+struct ReentrantWriter {
+    got: Vec<u8>,
+}
+impl Write for ReentrantWriter {
+    fn write(&mut self, b: &[u8]) -> std::io::Result<usize> {
+        let mut inner = Vec::new();
+        (b.len() as u64).serialize(&mut inner).map_err(|_| std::io::Error::new(std::io::ErrorKind::Other, "inner serialization failed"))?;
+        let n = u64::deserialize_full(&mut std::io::Cursor::new(&inner[..])).map_err(|_| std::io::Error::new(std::io::ErrorKind::Other, "inner deserialization failed"))?;
+        if n as usize != b.len() {
+            return Err(std::io::Error::new(std::io::ErrorKind::Other, "inner round trip gave another value"));
+        }
+        self.got.extend_from_slice(b);
+        Ok(b.len())
+    }
+    fn flush(&mut self) -> std::io::Result<()> {
+        Ok(())
+    }
+}
+
+/// Returns true if a thread is left blocked inside the library.
+pub fn c13_writer_context(rep: &mut Report) -> bool {
+    let value: Vec<u64> = (0..40u64).map(|i| i * 3 + 1).collect();
+    let mut plain = Vec::new();
+    value.serialize(&mut plain).unwrap();
+    rep.evaluations += 1;
+    rep.class("writer-that-is-a-client-of-the-library");
+    rep.nontrivial.insert(crate::report::hash_case(&["writer-context"], &vmodel::val::Val::Unit, 0));
+    let (tx, rx) = mpsc::channel();
+    let v = value.clone();
+    std::thread::spawn(move || {
+        let mut w = ReentrantWriter { got: vec![] };
+        let r = v.serialize(&mut w).map(|n| (n, w.got)).map_err(|e| format!("{:?}", e));
+        let _ = tx.send(r);
+    });
+    match rx.recv_timeout(Duration::from_secs(60)) {
+        Ok(Ok((n, got))) if n == plain.len() && got == plain => false,
+        Ok(other) => {
+            rep.failures.push(failure("C13", "writer-context-wrong-result", format!("a writer that uses the library inside write(): expected the fault-free bytes, got {:?}", other.map(|(n, g)| (n, g.len())))));
+            false
+        }
+        Err(_) => {
+            rep.failures.push(failure("C13", "writer-context-hang", "a writer that uses the library inside write(): serialize had not returned after 60 s: the library holds something across the calls to the writer".to_string()));
+            true
+        }
+    }
+}
+
 struct Reentrant {
     data: Vec<u8>,
     pos: usize,
